@@ -19,6 +19,9 @@ CLAIMED = {
  "C10": ("DESIGN 6/C10", "Lean 4 theorems on the index arithmetic of the drivers and window kernels for every length/window: reads_in_bounds, writes_once (each slot exactly once, nothing else), kernel_range_in_bounds (every index in start..=end of every callback < len, start <= end: covers cmp/norm rescans and reg residual loops), slices_ok, degenerate_clean (window 0 / empty / mismatched second series: panic or fully written output), second_series_reads. Tie to the code: the property oracle is applied directly to the logs of instrumented containers (LogVec validates every uget/uslice, LogOut counts writes per slot at assume_init) over an exhaustive band of lengths, windows 0..=len+3, null subsets, second-series lengths; real Vec inputs run under the debug-profile unsafe-precondition checks (an abort is a verdict).",
          "Lean kernel; axioms propext/Quot.sound/Classical.choice; real memory behaviour is observed (logging containers, UB-check aborts), not modelled; kernel read sets of cmp/norm/reg closures are bounded by the start..=end theorem, their exact access pattern is observed only.",
          "Lean 4 proof (index-arithmetic invariants) + instrumented-container correspondence check"),
+ "C19": ("DESIGN 6/C19", "Lean 4 theorems (Tv/Thm/C19.lean) prove for all inputs, over an executable model of linspace.rs / create.rs / own.rs / trusted.rs / uninit.rs: range(a,b,step) with step != 0 is the progression a, a+step, ... cut after exactly max(0, ceil((b-a)/step)) terms (exact rational ceiling) for integer element types (Rust truncating division, identity ceil) and for floats in exact arithmetic, with the membership form 'x in range iff x = a+k*step lies strictly before b in the direction of step'; linspace has n elements a+i*step with step (b-a)/(n-1) (rounded toward zero for integers) and ends at b for floats; full/empty; every collector (plain, trusted, with_len, optional->null, fallible plain/trusted) is the identity on the item sequence for Vec/VecDeque/Array1, fallible collection returns the first error and pulls no item after it; write_trust_iter writes slot i <- item i, or broadcasts a single item, or errs with no uset at all. The pinned integer range (F4) is refuted by a concrete witness and repaired by one fix: commit. The model is tied to the code by an exhaustive differential run (a,b,step in -6..=6 for i32/i64/usize and k/4 floats, n in 0..=8, three containers, every Ok/Err and null pattern up to length 6, buffers 0..=6 x iterators 0..=8 through a logging UninitRefMut and the real uninit buffers) plus a seeded random stream.",
+         "Lean kernel; axioms propext/Quot.sound/Classical.choice; model hand-transcribed and validated by the correspondence run; f64 is modelled by exact rationals (inputs k/4, results compared within 1e-9 rel.), so 'up to rounding' is not proved; integer overflow out of scope (DESIGN 5.2); std collect/FromIterator, VecDeque::from, Array1::from_vec/from_iter are modelled as order-preserving, not verified; Linspace::next_back is proved on the model but not reachable from the public API (module private), so not exercised by the harness; trusted collectors are only called under their contract (hint = true length), the model shows a violated contract is UB; polars backend not exercised.",
+         "Lean 4 proof (induction over fuel / item lists, exact rational ceiling vs truncating division) + model/implementation correspondence check"),
  "C02": ("DESIGN 6/C02", "Lean 4 theorems (Tv/Thm/C02.lean) prove for every length, window >= 1 and both driver shapes that the callback sequence is i -> (start i, i) over 0..len, slots written = 0..len in order, slices = window max(0,i-w+1)..=i; the model is tied to the code by an exhaustive differential run of all driver entry points x 15 input backends x 3 output containers x returned/out-buffer paths with a recording stateful callback.",
          "Lean kernel; axioms propext/Quot.sound/Classical.choice; index-level model of view.rs loops hand-written and validated by the correspondence run; std/ndarray internals observed, not verified.",
          "Lean 4 proof (induction over index lists) + model/implementation correspondence check"),
